@@ -47,8 +47,11 @@ VARIABLES l,
           held,     \* set of [obj, gid, name]: ammo objects between Acquire and Release
           seen,     \* names acquired so far in this run (uniq runs)
           uniq,     \* every line of the file has its own tag and is delivered once
-          handed    \* bag: content [tag, code, err] -> handed over and not yet written by the aggregator
-tx == <<plan, exp, pos, handed, nshots, prof, held, seen, uniq>>
+          handed,   \* bag: content [tag, code, err] -> handed over and not yet written by the aggregator
+          open,     \* set of [from, tok]: calls whose token a postprocessor captures, not yet quoted by a later call
+          cg,       \* connection (the target's view) -> the gun whose calls it carries
+          own       \* no shared-client: every gun has its own client, a connection belongs to ONE gun
+tx == <<plan, exp, pos, handed, nshots, prof, held, seen, uniq, open, cg, own>>
 
 Trace == ndJsonDeserialize(IOEnv.VERIF_TRACE)
 Ev == Trace[l]
@@ -58,7 +61,7 @@ EmptyBag == [x \in {} |-> 0]
 TraceInit == /\ l = 1 /\ TLCSet(1, 1) /\ Init
              /\ plan = <<>> /\ exp = [g \in Guns |-> <<>>] /\ pos = [g \in Guns |-> 0] /\ handed = EmptyBag
              /\ nshots = [g \in Guns |-> 0] /\ prof = [perinst |-> FALSE, klo |-> 0, khi |-> 0]
-             /\ held = {} /\ seen = {} /\ uniq = FALSE
+             /\ held = {} /\ seen = {} /\ uniq = FALSE /\ open = {} /\ cg = [x \in {} |-> 0] /\ own = FALSE
 
 Quiet == \A g \in Guns : nShoot[g] = 0
 Stutter == UNCHANGED vars
@@ -67,11 +70,11 @@ TRun == /\ Ev.ev = "Run" /\ Quiet
         /\ pend' = {} /\ made' = {} /\ owners' = [g \in Guns |-> {}] /\ busy' = [i \in Insts |-> FALSE]
         /\ nShoot' = [g \in Guns |-> 0] /\ shooter' = [g \in Guns |-> {}] /\ cur' = [g \in Guns |-> "-"]
         /\ used' = {} /\ defs' = "T" /\ view' = [g \in Guns |-> "none"] /\ inCrit' = {} /\ sent' = {} /\ shots' = 0
-        /\ UNCHANGED <<svars, schvars, avars>>
+        /\ UNCHANGED <<svars, schvars, avars, vvars>>
         /\ \A x \in DOMAIN handed : handed[x] = 0
         /\ plan' = Ev.steps /\ exp' = [g \in Guns |-> <<>>] /\ pos' = [g \in Guns |-> 0] /\ handed' = EmptyBag
         /\ nshots' = [g \in Guns |-> 0] /\ prof' = [perinst |-> Ev.perinst, klo |-> Ev.klo, khi |-> Ev.khi]
-        /\ held = {} /\ held' = {} /\ seen' = {} /\ uniq' = Ev.uniq
+        /\ held = {} /\ held' = {} /\ seen' = {} /\ uniq' = Ev.uniq /\ open' = {} /\ cg' = [x \in {} |-> 0] /\ own' = ~Ev.shared
 TNewGun == Ev.ev = "NewGun" /\ Ev.gun \in Guns /\ NewGun(Ev.gid, Ev.gun) /\ UNCHANGED tx
 TBind == Ev.ev = "Bind" /\ Ev.ok /\ Ev.gun \in Guns /\ Ev.inst \in Insts /\ Bind(Ev.gid, Ev.inst, Ev.gun) /\ UNCHANGED tx
 TShootBegin == /\ Ev.ev = "ShootBegin" /\ Ev.gun \in Guns
@@ -83,16 +86,31 @@ TShootBegin == /\ Ev.ev = "ShootBegin" /\ Ev.gun \in Guns
                /\ nshots' = [nshots EXCEPT ![Ev.gun] = @ + 1]
                \* the gun shoots the object ITS goroutine holds, under the name it was acquired with
                /\ Ev.obj = 0 \/ [obj |-> Ev.obj, gid |-> Ev.gid, name |-> Ev.ammo] \in held
-               /\ UNCHANGED <<plan, handed, prof, held, seen, uniq>>
+               /\ UNCHANGED <<plan, handed, prof, held, seen, uniq, open, cg, own>>
 Agree(ts) == Len(ts) > 0 /\ \A j \in 1..Len(ts) : ts[j] = ts[1] /\ ts[1] \notin {"", "-"}
 \* the call carries the token of the ammo in Shoot on some gun ...
-RecvCarried(t) == \E g \in Guns : cur[g] = t /\ Send(g, t, t, defs, view, FALSE)
+\* What instances may share and what not: with shared-client the CONNECTIONS of the pooled clients are shared by design;
+\* without it every gun has a client of its own, so a connection never carries calls of two guns (conn 0: not observed).
+ConnOk(g) == (own /\ Ev.conn # 0 /\ Ev.conn \in DOMAIN cg) => (cg[Ev.conn] = g)
+RecvCarried(t) ==
+    \E g \in Guns :
+        /\ cur[g] = t
+        /\ ConnOk(g)
+        /\ Send(g, t, t, defs, view, FALSE, "")
+        /\ cg' = (IF Ev.conn # 0 /\ Ev.conn \notin DOMAIN cg THEN cg @@ (Ev.conn :> g) ELSE cg)
 \* ... or (scenario) a value drawn for this call and for no other: Draw(g,t) followed by Send(g,t,t)
 RecvDrawn(t) == /\ \E g \in Guns : nShoot[g] > 0 /\ cur[g] = "" /\ g \notin inCrit
                 /\ t \notin used
                 /\ used' = used \cup {t}
-                /\ UNCHANGED <<pend, made, owners, busy, nShoot, shooter, cur, defs, view, inCrit, sent, shots, svars, schvars, avars>>
-TRecv == Ev.ev = "Recv" /\ Agree(Ev.toks) /\ (RecvCarried(Ev.toks[1]) \/ RecvDrawn(Ev.toks[1])) /\ UNCHANGED tx
+                /\ UNCHANGED <<pend, made, owners, busy, nShoot, shooter, cur, defs, view, inCrit, sent, shots, svars, schvars, avars, vvars, cg>>
+\* variables of a shot (Isolation!VarIsolation at the level of what the target sees): a call that quotes a value captured
+\* from an earlier step (prev) quotes the token of a call of that step which nobody has quoted yet -- with one storage per
+\* shot that is the call of ITS OWN shot; a value of another instance's shot would be quoted twice, or is still to come
+Chain == /\ Ev.prev # "" => [from |-> Ev.from, tok |-> Ev.prev] \in open
+         /\ open' = (open \ {[from |-> Ev.from, tok |-> Ev.prev]}) \cup (IF Ev.cap # "" THEN {[from |-> Ev.cap, tok |-> Ev.toks[1]]} ELSE {})
+TRecv == /\ Ev.ev = "Recv" /\ Agree(Ev.toks) /\ (RecvCarried(Ev.toks[1]) \/ RecvDrawn(Ev.toks[1]))
+         /\ Chain
+         /\ UNCHANGED <<plan, exp, pos, handed, nshots, prof, held, seen, uniq, own>>
 Content(e) == [tag |-> e.tag, code |-> e.code, err |-> e.err]
 BagAdd(b, x) == IF x \in DOMAIN b THEN [b EXCEPT ![x] = @ + 1] ELSE b @@ (x :> 1)
 \* the gun in Shoot on this goroutine hands over THE sample of its next step (SReport)
@@ -101,31 +119,31 @@ TSample == /\ Ev.ev = "Sample"
                                 /\ pos[g] < Len(exp[g]) /\ exp[g][pos[g] + 1] \in {Ev.base, "*"}
                                 /\ pos' = [pos EXCEPT ![g] = @ + 1]
            /\ handed' = BagAdd(handed, Content(Ev))
-           /\ UNCHANGED <<vars, plan, exp, nshots, prof, held, seen, uniq>>
+           /\ UNCHANGED <<vars, plan, exp, nshots, prof, held, seen, uniq, open, cg, own>>
 \* the aggregator wrote one of the samples it was handed, as it was handed (AggWrite)
 TPhout == /\ Ev.ev = "Phout" /\ ~Ev.bad /\ Quiet
           /\ Content(Ev) \in DOMAIN handed /\ handed[Content(Ev)] > 0
           /\ handed' = [handed EXCEPT ![Content(Ev)] = @ - 1]
-          /\ UNCHANGED <<vars, plan, exp, pos, nshots, prof, held, seen, uniq>>
+          /\ UNCHANGED <<vars, plan, exp, pos, nshots, prof, held, seen, uniq, open, cg, own>>
 \* provider.Acquire handed the object out to this goroutine (AAcquire)
 TAcquire == /\ Ev.ev = "Acquire"
             /\ Ev.obj = 0 \/ \A h \in held : h.obj # Ev.obj /\ h.gid # Ev.gid      \* nobody holds it; the goroutine holds nothing
             /\ (uniq /\ Ev.name # "") => Ev.name \notin seen                          \* a line is delivered once
             /\ held' = IF Ev.obj = 0 THEN held ELSE held \cup {[obj |-> Ev.obj, gid |-> Ev.gid, name |-> Ev.name]}
             /\ seen' = IF uniq THEN seen \cup {Ev.name} ELSE seen
-            /\ UNCHANGED <<vars, plan, exp, pos, handed, nshots, prof, uniq>>
+            /\ UNCHANGED <<vars, plan, exp, pos, handed, nshots, prof, uniq, open, cg, own>>
 \* the ONE Release of what this goroutine acquired (ARelease / ADiscard); not while its gun is still shooting it
 TRelease == /\ Ev.ev = "Release"
             /\ Ev.obj = 0 \/ \E h \in held : h.obj = Ev.obj /\ h.gid = Ev.gid
             /\ \A g \in Guns : Ev.gid \in shooter[g] => nShoot[g] = 0
             /\ held' = {h \in held : h.obj # Ev.obj \/ Ev.obj = 0}
-            /\ UNCHANGED <<vars, plan, exp, pos, handed, nshots, prof, seen, uniq>>
+            /\ UNCHANGED <<vars, plan, exp, pos, handed, nshots, prof, seen, uniq, open, cg, own>>
 \* discard_overflow: the engine skipped the shot and reported its own sample (which phout writes like any other)
 TDiscarded == /\ Ev.ev = "Discarded"
               \* (whether the skipped ammo is given back before or after this report is not prescribed)
               /\ \A g \in Guns : Ev.gid \in shooter[g] => nShoot[g] = 0
               /\ handed' = BagAdd(handed, Content(Ev))
-              /\ UNCHANGED <<vars, plan, exp, pos, nshots, prof, held, seen, uniq>>
+              /\ UNCHANGED <<vars, plan, exp, pos, nshots, prof, held, seen, uniq, open, cg, own>>
 TShootEnd == /\ Ev.ev = "ShootEnd" /\ Ev.gun \in Guns /\ Ev.gid \in shooter[Ev.gun]
              /\ pos[Ev.gun] >= 1                       \* a shot hands over at least the sample of its first step
              /\ \E i \in owners[Ev.gun] : ShootEnd(i, Ev.gun)
@@ -138,8 +156,10 @@ TEnd == /\ Ev.ev \in {"PoolDone", "RunEnd"} /\ Quiet /\ Stutter /\ UNCHANGED tx
         /\ (Ev.ev = "PoolDone" /\ prof.perinst) =>
                \A g \in Guns : owners[g] # {} => (nshots[g] >= prof.klo /\ nshots[g] <= prof.khi)
 
+\* the target's connection log (which call arrived on which connection is part of Recv)
+TConn == Ev.ev \in {"ConnBegin", "ConnEnd", "ReflCall"} /\ Stutter /\ UNCHANGED tx
 TraceNext == /\ l <= Len(Trace)
-             /\ (TRun \/ TNewGun \/ TBind \/ TShootBegin \/ TRecv \/ TSample \/ TPhout \/ TShootEnd \/ TEnd \/ TAcquire \/ TRelease \/ TDiscarded)
+             /\ (TConn \/ TRun \/ TNewGun \/ TBind \/ TShootBegin \/ TRecv \/ TSample \/ TPhout \/ TShootEnd \/ TEnd \/ TAcquire \/ TRelease \/ TDiscarded)
              /\ l' = l + 1
              /\ Mark
 
